@@ -3,7 +3,7 @@ From JR Require Import PoolInvDefs PoolInvA PoolInvB.
 
 Definition stop_region (l : clabel) : bool :=
   match l with
-  | CSPLock | CSPPut _ | CSPCopy | CSPUnlock _ | CSPJoin _ | CSPDel
+  | CSPLock | CSPPut _ | CSPCopy | CSPUnlock _ | CSPAlive _ | CSPJoin _ | CSPAlive2 _ | CSPDel
   | CCLLock | CCLGet | CCLDone | CCLUnlock | CJTest _ JClear | CJQJoin JClear => true
   | _ => false
   end.
@@ -68,6 +68,11 @@ Proof.
   - (* CSPSet *)
     right. ctl_cases Hctl. simp. reflexivity.
   - (* CSPLock: the controller gets the lock, so nobody is creating a thread *)
+    exfalso. use_lockop. simp. split_upd; simp; [discriminate|].
+    destruct Hlk as [_ Hlc]. pose proof (Hlc c') as Hd.
+    destruct (Hoth (TC c') ltac:(congruence)) as [_ Hz]. rewrite Hz in Hd.
+    destruct (cpc (cs s c')); try discriminate Hc'; cbn in Hd; discriminate.
+  -
     exfalso. use_lockop. simp. split_upd; simp; [discriminate|].
     destruct Hlk as [_ Hlc]. pose proof (Hlc c') as Hd.
     destruct (Hoth (TC c') ltac:(congruence)) as [_ Hz]. rewrite Hz in Hd.
